@@ -7,6 +7,7 @@ rule a reader has to agree with are in `Spec/NameFormat.lean`; helper lemmas in
 `Lemmas/NameFormat.lean`.
 -/
 import PybtexModel.Lemmas.NameFormat
+import PybtexModel.Lemmas.NameFormatMore
 
 namespace Pybtex.Props
 open Pybtex Pybtex.NameFormat Spec Spec.NameFormat
@@ -38,7 +39,7 @@ theorem C11_malformed_rejected_nonvacuous :
     Spec.wellformed "{f f}".toList = false ∧
     Spec.wellformed "{f_}".toList = false ∧
     formatName "Donald E. Knuth".toList "{ff~}{vv~}{lll}".toList = .error .illegalLetters := by
-  decide
+  decide +kernel
 
 /-- Conversely a well-formed format string is accepted by the parser: the only error
 `format_name` can then raise is the brace-nesting limit of the string primitives. -/
@@ -67,7 +68,7 @@ theorem C11_wellformed_accepted (fmt : Str) (h : Spec.wellformed fmt = true) :
 theorem C11_wellformed_accepted_nonvacuous :
     Spec.wellformed "{ff~}{vv~}{ll}{, jj}".toList = true ∧
     Spec.wellformed "{{abc}{def}FF{xyz}{#@${}{sdf}}} and {, 12 l.~~}".toList = true := by
-  decide
+  decide +kernel
 
 /-- Totality: the model never ends in its `internal` outcome — the fuel of the two parser
 loops is never exhausted, `Person.get_part` never fails, `BibTeXNameFormatError` is
@@ -145,7 +146,7 @@ theorem C11_grammar_roundtrip_nonvacuous :
             Piece.ch ' ',
             Piece.part ⟨[], some ⟨.von, false⟩, some "-".toList, ".~".toList⟩,
             Piece.part ⟨", ".toList, none, none, []⟩] = "{{ }ff~{ }} {v{-}.~}{, }".toList := by
-  decide
+  decide +kernel
 
 /-! ### clause by clause -/
 
@@ -437,5 +438,161 @@ theorem C11_discretionary_tie_no_letters_nonvacuous :
     formatName exName "{, ~}".toList = .ok (", ~".toList, false) ∧
     formatName exName "{ -- 1999~}".toList = .ok (" -- 1999 ".toList, false) := by
   decide +kernel
+
+/-! ### compositionality, abbreviation on pieces, several tokens, the built-in -/
+
+/-- Compositionality.  A well-formed part `p` (`{pre letters {sep} post}`, `Part.wf`) written in
+front of ANY format string `rest` — well-formed or not — is formatted by the rule for that
+part alone, in front of what `rest` yields: an error of `rest` (malformed, nesting limit) stays
+that error; otherwise the part contributes `Spec.formatPart person p` (the pre-text, the shown
+tokens with their separators, the post-text with its tie directive; nothing for an empty name
+part).  With `C11_level0_verbatim` for a brace-level-0 prefix this determines `format_name` on
+every format string written from the grammar, part by part and at any position, without the
+reference parser. -/
+theorem C11_compositional (name : Str) (p : Part) (hp : p.wf = true) (rest : Str) :
+    formatName name (p.render ++ rest) =
+      match formatName name rest with
+      | .error e => .error e
+      | .ok (s, rep) =>
+        match mkPerson name [] [] [] [] [] with
+        | .error _ => .error .tooDeep
+        | .ok (person, _) =>
+          match Spec.NameFormat.formatPart person p with
+          | some t => .ok (t ++ s, rep)
+          | none => .error .tooDeep :=
+  formatName_render_append name p hp rest
+
+theorem C11_compositional_nonvacuous :
+    (⟨", ".toList, some ⟨.first, false⟩, none, ".".toList⟩ : Part).wf = true ∧
+    (⟨", ".toList, some ⟨.first, false⟩, none, ".".toList⟩ : Part).render = "{, f.}".toList ∧
+    formatName exName "{vv~}{ll}".toList = .ok ("de~la Vall{\\'e}e~Poussin".toList, false) ∧
+    Spec.NameFormat.formatPart exPerson ⟨", ".toList, some ⟨.first, false⟩, none, ".".toList⟩
+      = some ", C.~L. X.~J.".toList ∧
+    formatName exName "{vv~}{ll}{, f.}".toList
+      = .ok ("de~la Vall{\\'e}e~Poussin, C.~L. X.~J.".toList, false) ∧
+    formatName exName "{, f.}{lll}".toList = .error .illegalLetters := by decide +kernel
+
+/-- Hyphen-aware abbreviation, at the level of the property: a token written as pieces joined
+by hyphens (the pieces free of hyphens and braces; they may be empty, as in `Jean--Pierre` or
+`-Jean`) abbreviates to the initials of its pieces — the first letter of each piece — in the
+order of the pieces, joined by `.-` or by the explicit separator; a piece without a letter is
+skipped (it leaves neither an initial nor a separator). -/
+theorem C11_hyphen_abbreviation (sep : Option Str) (pieces : List Str)
+    (h : ∀ q ∈ pieces, ∀ c ∈ q, c ≠ '-' ∧ c ≠ '{' ∧ c ≠ '}') :
+    abbreviate sep (joinWith ['-'] pieces) =
+      some (joinWith (match sep with | some s => s | none => ['.', '-'])
+        ((pieces.map initial).filter (· ≠ []))) :=
+  abbreviate_pieces sep pieces h
+
+theorem C11_hyphen_abbreviation_nonvacuous :
+    joinWith ['-'] ["Jean".toList, [], "Pierre".toList] = "Jean--Pierre".toList ∧
+    (["Jean".toList, [], "Pierre".toList].map initial).filter (· ≠ []) = ["J".toList, "P".toList] ∧
+    abbreviate none "Jean--Pierre".toList = some "J.-P".toList ∧
+    abbreviate none "-Jean-12-Paul-".toList = some "J.-P".toList ∧
+    abbreviate (some []) "1Jean-Émile".toList = some "JÉ".toList ∧
+    abbreviate none "1-2".toList = some [] ∧
+    formatName "Jean--Pierre Hansen".toList "{f.~}{ll}".toList = .ok ("J.-P. Hansen".toList, false) := by
+  decide +kernel
+
+/-- Full versus abbreviated form on a name part with ANY number of tokens (post-text without tie
+directive).  The abbreviated form `f` is the full form `ff` with every token replaced by its
+own abbreviation (token by token, independently of the other tokens) and — with the default
+separator — a period put in front of every tie and blank (`.~` / `. `); with an explicit
+separator the two forms differ only in the tokens shown. -/
+theorem C11_full_vs_abbrev_tokens (person : Person) (pre run : Str) (delim : Option Str) (post : Str)
+    (l : Letters) (hl : decodeLetters run = some l)
+    (hne : tokens person l.slot ≠ []) (hpost : post.getLast? ≠ some '~') :
+    formatPart person pre (some run) delim post =
+      match (if l.full then some (tokens person l.slot)
+             else (tokens person l.slot).mapM (abbreviate delim)) with
+      | none => .error .tooDeep
+      | some ws =>
+        match delim with
+        | some s => .ok (pre ++ joinWith s ws ++ post)
+        | none =>
+          match (if l.full then joinDefault ws ['~'] [' '] else joinDefault ws ['.', '~'] ['.', ' ']) with
+          | some b => .ok (pre ++ b ++ post)
+          | none => .error .tooDeep := by
+  have hk := trailingTies_of_getLast hpost
+  rw [formatPart_body person pre run delim post l hl hne]
+  simp only [body, shownTokens]
+  cases hws : (if l.full = true then some (tokens person l.slot)
+      else (tokens person l.slot).mapM (abbreviate delim)) with
+  | none => rfl
+  | some ws =>
+    simp only [Option.bind_some, joinShown]
+    cases delim with
+    | some s => simp [withPost_plain hk, ofOpt]
+    | none =>
+      simp only
+      cases (if l.full = true then joinDefault ws ['~'] [' '] else joinDefault ws ['.', '~'] ['.', ' ']) with
+      | none => rfl
+      | some b => simp [withPost_plain hk, ofOpt]
+
+theorem C11_full_vs_abbrev_tokens_nonvacuous :
+    decodeLetters "f".toList = some ⟨.first, false⟩ ∧ decodeLetters "FF".toList = some ⟨.first, true⟩ ∧
+    tokens { first := ["Jean-Paul".toList, "Ab".toList, "Charles".toList], last := ["X".toList] } .first
+      = ["Jean-Paul".toList, "Ab".toList, "Charles".toList] ∧
+    formatPart { first := ["Jean-Paul".toList, "Ab".toList, "Charles".toList], last := ["X".toList] }
+      [] (some "ff".toList) none [] = .ok "Jean-Paul Ab~Charles".toList ∧
+    formatPart { first := ["Jean-Paul".toList, "Ab".toList, "Charles".toList], last := ["X".toList] }
+      [] (some "f".toList) none ".".toList = .ok "J.-P. A.~C.".toList ∧
+    formatPart { first := ["Jean-Paul".toList, "Ab".toList, "Charles".toList], last := ["X".toList] }
+      [] (some "f".toList) (some []) [] = .ok "JPAC".toList := by decide +kernel
+
+/-- The n-th name of a name list.  For a list of names written with ` and ` between them — each
+name brace-balanced, without a brace-level-0 ` and ` of its own and without surrounding white
+space (`C02.NameOk`) — the `format.name$` built-in with name number `k + 1` formats exactly the
+name at position `k` (counted from 0) of the list, with `format_name`; a name number outside
+`1 .. count` yields the "no such name" outcome (warning, empty string) whatever the list and the
+format; and the built-in never ends in an internal error. -/
+theorem C11_nth_name :
+    (∀ (xs : List Str), (∀ x ∈ xs, C02.NameOk x ∧ strip x = x) →
+      joinWith " and ".toList xs ≠ [] →
+      ∀ (k : Nat) (x : Str), xs[k]? = some x → ∀ fmt,
+        formatNth (joinWith " and ".toList xs) (k + 1) fmt =
+          match formatName x fmt with
+          | .error e => .error e
+          | .ok (s, rep) => .ok (.formatted s rep)) ∧
+    (∀ names (n : Int) fmt, (n < 1 ∨ ((splitNameList names).length : Int) < n) →
+      formatNth names n fmt = .ok .noSuchName) ∧
+    (∀ names n fmt, formatNth names n fmt ≠ .error .internal) :=
+  ⟨fun xs hx hs k x hk fmt => formatNth_join xs hx hs k x hk fmt,
+   formatNth_out_of_range, formatNth_not_internal⟩
+
+theorem C11_nth_name_nonvacuous :
+    (∀ x ∈ ["von Beethoven, Jr, Ludwig".toList, "{Barnes and Noble}".toList, "Jean-Paul Sartre".toList],
+      (BibWrite.andFree x = true ∧ depthAfter 0 x = some 0) ∧ strip x = x) ∧
+    joinWith " and ".toList ["von Beethoven, Jr, Ludwig".toList, "{Barnes and Noble}".toList, "Jean-Paul Sartre".toList]
+      = "von Beethoven, Jr, Ludwig and {Barnes and Noble} and Jean-Paul Sartre".toList ∧
+    formatNth "von Beethoven, Jr, Ludwig and {Barnes and Noble} and Jean-Paul Sartre".toList 3 "{f.~}{ll}".toList
+      = .ok (.formatted "J.-P. Sartre".toList false) ∧
+    formatNth "von Beethoven, Jr, Ludwig and {Barnes and Noble} and Jean-Paul Sartre".toList 2 "{ff~}{ll}".toList
+      = .ok (.formatted "{Barnes and Noble}".toList false) ∧
+    formatNth "von Beethoven, Jr, Ludwig and {Barnes and Noble} and Jean-Paul Sartre".toList 4 "{ll}".toList
+      = .ok .noSuchName ∧
+    formatNth "A and B".toList 0 "{ll}".toList = .ok .noSuchName := by
+  decide +kernel
+
+/-- The lower-casing of a letter run.  `check_format_chars` and `NamePart.__init__` apply
+`str.lower()` to the brace-level-1 letter run; the model and the reference apply the ASCII
+lower-casing.  Both accept exactly the same runs: `lowerU` is `str.lower()` character by
+character from the interpreter's regenerated table, and no character outside ASCII is mapped to
+one of `f l v j` (kernel evaluation over the whole table), so a run is one of
+f ff l ll v vv j jj after `str.lower()` iff it is after ASCII lower-casing — iff the model's
+`check_format_chars` accepts it, iff the reference grammar decodes it. -/
+theorem C11_letter_run_lowercasing (run : Str) :
+    legalLower (lowerU run) = formatCharsOk false run ∧
+    legalLower (lowerU run) = Spec.legalLetters run ∧
+    legalLower (lowerU run) = (decodeLetters run).isSome := by
+  have h1 : legalLower (lowerU run) = Spec.legalLetters run := legalLower_lowerU run
+  have h2 : formatCharsOk false run = Spec.legalLetters run := formatCharsOk_eq run
+  exact ⟨h1.trans h2.symm, h1, by rw [decodeLetters_isSome]; exact h1.trans h2.symm⟩
+
+theorem C11_letter_run_lowercasing_nonvacuous :
+    legalLower (lowerU "FF".toList) = true ∧ legalLower (lowerU "vV".toList) = true ∧
+    legalLower (lowerU "ÉÉ".toList) = false ∧ lowerU "ÉÉ".toList = "éé".toList ∧
+    legalLower (lowerU [Char.ofNat 0x212A]) = false ∧ lowerU [Char.ofNat 0x212A] = "k".toList ∧
+    legalLower (lowerU "ſ".toList) = false := by decide +kernel
 
 end Pybtex.Props
